@@ -59,7 +59,7 @@ const char* base_name(const char* p) {
 }
 // Frames of the current stack that are babylon functions, innermost first, as short names. No symbolizer process:
 // dladdr on the (rdynamic) executable + demangling; inlined callees are attributed to their caller.
-int babylon_frames(std::string* out, int max) {
+int babylon_frames(std::string* out, int max, bool detail = false) {
   void* bt[64];
   int n = backtrace(bt, 64), k = 0;
   bool dbg = getenv("VERIF_SERIAL_DEBUG") != nullptr;
@@ -85,7 +85,7 @@ int babylon_frames(std::string* out, int max) {
       continue;
     }
     if (dbg) fprintf(stderr, "frame %d: %s\n", i, name.c_str());
-    if (vs::is_babylon_function(name)) out[k++] = vs::short_function(name);
+    if (vs::is_babylon_function(name)) out[k++] = vs::short_function(name, detail);
   }
   return k;
 }
@@ -141,7 +141,7 @@ static void verif_terminate() {
     }
   }
   std::string fr[1];
-  snprintf(g_escape_site, 256, "%s", babylon_frames(fr, 1) ? fr[0].c_str() : "unknown");
+  snprintf(g_escape_site, 256, "%s", babylon_frames(fr, 1, true) ? fr[0].c_str() : "unknown");
   snprintf(g_escape_msg, 512, "%s", what.c_str());
   siglongjmp(g_escape_jmp, 2);
 }
